@@ -177,7 +177,7 @@ def main():
 
     # ---- 3. histories: corpus first, then generated
     cases, traces, twins, dist = props.make_cases(spec, prop, tier, seed, load_corpus(prop))
-    nontrivial = props.count_nontrivial(spec, cases, traces)
+    nontrivial = props.count_nontrivial(spec, cases, traces, prop)
 
     # ---- 4. model vs implementation, checkers on implementation traces
     M, V = ([], [])
